@@ -195,8 +195,15 @@ def make_plan(seed: int, tier: str, index: int) -> dict[str, Any]:
         schedule["granularity"] = "opcode"
         if "est_steps" in schedule:
             schedule["est_steps"] *= 4
-    return {"property": PROP, "seed": seed, "text": text, "present": present, "clients": clients,
+    plan = {"property": PROP, "seed": seed, "text": text, "present": present, "clients": clients,
             "schedule": schedule}
+    if s.random() < (0.35 if n_clients > 1 else 0.15):
+        # "cold" runs: the harness does not observe the shared chart before or between operations
+        # (observing reads every derived attribute and would fill all lazy caches before the
+        # readers start); observation and twin equality are judged once, at the end, against the
+        # untouched twin
+        plan["cold"] = True
+    return plan
 
 
 # ----------------------------------------------------------------------------------------------
@@ -379,7 +386,7 @@ def execute(plan: dict[str, Any]) -> dict[str, Any]:
         if state["halt"]:
             return
         state["halt"] = True
-        opk = op["op"] if op else "initial"
+        opk = op["op"] if op else ("final" if extra == "cold-final" else "initial")
         absent = "absent" if (op and _absent_flag(op, present)) else "present"
         violations.append({"sig": f"C19/{inv}/{opk}/{absent}/{extra}", "detail": detail})
 
@@ -388,9 +395,12 @@ def execute(plan: dict[str, Any]) -> dict[str, Any]:
         twin = world.parse_text(text)
     except Exception as e:  # noqa: BLE001
         raise Discard("chart-rejected:" + type(e).__name__) from e
-    obs0 = rng.digest(observe_chart(chart))
-    if not (chart == twin and twin == chart):
-        vio("twin-unequal", None, "-", "chart != twin right after the initial observation of chart")
+    cold = bool(plan.get("cold"))
+    obs0 = None
+    if not cold:
+        obs0 = rng.digest(observe_chart(chart))
+        if not (chart == twin and twin == chart):
+            vio("twin-unequal", None, "-", "chart != twin right after the initial observation of chart")
     n_clients = len(plan["clients"])
     sched = Scheduler(plan["schedule"], n_clients, env.PKG_DIR,
                       preempt_lines=not env.package_uses_locks_or_threads())
@@ -443,7 +453,7 @@ def execute(plan: dict[str, Any]) -> dict[str, Any]:
                         vio("result-differs-from-fresh-parse", op, res[1].rsplit(".", 1)[-1],
                             f"client {ci} op {k}: {op} raised {res}")
                     # (1) observation constant
-                    if not state["halt"]:
+                    if not state["halt"] and not cold:
                         try:
                             now = rng.digest(observe_chart(chart))
                         except BaseException as e:  # noqa: BLE001
@@ -453,7 +463,7 @@ def execute(plan: dict[str, Any]) -> dict[str, Any]:
                                 f"client {ci} op {k}: after {op} the public observation of the "
                                 f"chart changed")
                     # (2) twin equality
-                    if not state["halt"]:
+                    if not state["halt"] and not cold:
                         try:
                             eq = bool(chart == twin) and bool(twin == chart) and not (chart != twin)
                         except BaseException as e:  # noqa: BLE001
@@ -469,6 +479,24 @@ def execute(plan: dict[str, Any]) -> dict[str, Any]:
         sched.run([body_for(i) for i in range(n_clients)])
     except HarnessError as e:
         harness_error = str(e)
+    if cold and harness_error is None and not state["halt"]:
+        # end-of-run judgement of a cold run: the chart the readers used against its untouched twin
+        try:
+            now = rng.digest(observe_chart(chart))
+        except BaseException as e:  # noqa: BLE001
+            now = "exc:" + type(e).__name__
+        if now != rng.digest(observe_chart(twin)):
+            vio("observation-changed", None, "cold-final",
+                "after all read-only operations the public observation of the chart differs from "
+                "that of its untouched, identically parsed twin")
+        else:
+            try:
+                eq = bool(chart == twin) and bool(twin == chart) and not (chart != twin)
+            except BaseException:  # noqa: BLE001
+                eq = False
+            if not eq:
+                vio("twin-unequal", None, "cold-final", "after all read-only operations chart != twin")
+    probes["cold_runs"] = 1 if cold else 0
     world.drain_log()
     all_ops = [op for c in plan["clients"] for op in c]
     has_special = any(_absent_flag(op, present) for op in all_ops) or n_failing > 0
